@@ -612,8 +612,14 @@ func GenProgram(ts *sim.Tapes, cfg Config, p GenParams) *Program {
 		if p.Reopen {
 			w[2] = 2
 		}
+		// a reader may only be held across writers while the map is large
+		// enough never to be remapped (a writer that must remap waits for
+		// every reader: on one task that is the documented self-deadlock)
 		if p.Readers && bigMap {
-			w[3], w[4], w[5] = 3, 3, 2
+			w[3] = 3
+		}
+		if len(openReaders) > 0 {
+			w[4], w[5] = 3, 2
 		}
 		switch g.t.Pick(w...) {
 		case 0:
@@ -629,6 +635,7 @@ func GenProgram(ts *sim.Tapes, cfg Config, p GenParams) *Program {
 			if p.ReopenOpts {
 				o = GenOpenOpts(g.t, cfg)
 			}
+			bigMap = o.InitialMmapSize >= 64<<20
 			prog.Steps = append(prog.Steps, Step{Kind: "reopen", Opts: &o})
 		case 3:
 			if len(openReaders) < 3 {
